@@ -7,5 +7,6 @@ TECHNIQUE = {
     'C08': 'static handler-invariant check: path enumeration of the pending-table handlers (register-before-send, completion implies removal and timer cancel, correlation keys, error types)',
     'C06': 'typestate analysis: finite transition system extracted from BusAuthenticator by abstract interpretation, explored exhaustively and compared with the specification\'s server table; path rules for line-mode limits and mechanism acceptance',
     'C20': 'static ordering/FIFO rules: path enumeration of sender, receiver-queue and header-construction functions',
+    'C07': 'typestate analysis: finite transition system extracted from ClientAuthenticator (exact constant propagation over the mechanism list), explored exhaustively; attribute-discipline lint',
     'C02': 'static conformance check of the extracted codec model against specification tables; padding function interpreted in the congruence domain mod 8',
 }
